@@ -2,6 +2,7 @@ import ZenonVerif.Model.Versioned
 import ZenonVerif.Lemmas.KvLogic
 import ZenonVerif.Lemmas.KvOrder
 import ZenonVerif.Lemmas.LdbInv
+import ZenonVerif.Lemmas.KvChanges
 /-
 C07 — versioned store: a view at commit X shows exactly the state as of X. Property theorems only.
 (C06-T2 `rollback_exact` lives in Props/C06.lean.)
@@ -235,6 +236,88 @@ example : ∃ s h v1, Reach s h ∧ h.length = 2 ∧ v1 ∈ h ∧ v1.id = ⟨1, 
   obtain ⟨s5, p5⟩ := r4.inv.inv0.pop_succeeds
   have r5 := Reach.pop r4 p5
   exact ⟨s5, _, commitVer [] id1 ops1, r5, rfl, by simp, rfl, by decide, by decide, by decide⟩
+
+
+/-! ### T3 — write isolation and change sets -/
+
+/-- T3 `changes_replay`: for a view with its own (key-ordered) top layer directly over a root, replaying the
+    view's change set onto the root's content gives exactly what the view reads — for every key. -/
+theorem changes_replay_layer {top : Raw} (hs : Sorted top) (root : Root) (k : Bytes) :
+    applyP root.get (edChanges top) k =
+      edDecode (match rget top k with | some v => some v | none => root.rawGet k) := by
+  rw [applyP_edChanges hs]
+  cases rget top k with
+  | some raw => exact (edDecode_some raw).symm
+  | none => rfl
+
+/-- the same on the driver's view tree: `Changes()` of a first-level view replayed over its root = its reads -/
+theorem changes_replay_view (vs : Views) (n : String) (top : Raw) (root : Root)
+    (hn : findNode vs n = some (.layer top none root)) (hs : Sorted top) (k : Bytes) :
+    applyP root.get (changesV vs n) k = getV vs n k := by
+  have h1 : changesV vs n = edChanges top := by
+    simp [changesV, rawChangesV, hn, rscan_nil_prefix]
+  have h2 : getV vs n k = edDecode (match rget top k with | some v => some v | none => root.rawGet k) := by
+    simp only [getV, rawGetV, hn]
+    cases rget top k <;> rfl
+  rw [h1, h2]; exact changes_replay_layer hs root k
+
+/-- every top layer a view can have (writes through `Put`/`Delete` starting from the empty memdb) is key-ordered -/
+theorem top_layer_sorted (p : Patch) : Sorted (edApply [] p) := Sorted.nil.edApply p
+
+/-- the change set of a view that received the writes `p` replays to the same logical effect as `p` -/
+theorem changes_of_writes (s : Store) (p : Patch) : applyP s (edChanges (edApply [] p)) = applyP s p := by
+  rw [applyP_edChanges_edApply Sorted.nil]; rfl
+
+/-- `changes_order_independent`: the change set depends only on the final content of the top layer, not on the
+    order (or repetition) of the writes that produced it — two write sequences leaving the same raw lookup
+    function produce the identical operation list (hence identical dumps and changes hashes). -/
+theorem changes_order_independent (p q : Patch)
+    (h : ∀ k, rget (edApply [] p) k = rget (edApply [] q) k) :
+    edChanges (edApply [] p) = edChanges (edApply [] q) := by
+  rw [sorted_ext (top_layer_sorted p) (top_layer_sorted q) h]
+
+/-- instances: writes to different keys may be swapped, an overwritten write may be dropped — anywhere in the
+    sequence — without changing the change set -/
+theorem changes_swap (pre post : Patch) (o1 o2 : Op) (hk : o1.key ≠ o2.key) :
+    edChanges (edApply [] (pre ++ o1 :: o2 :: post)) = edChanges (edApply [] (pre ++ o2 :: o1 :: post)) := by
+  simp only [edApply, List.foldl_append, List.foldl_cons]
+  have := edApplyOp_comm (top_layer_sorted pre) o1 o2 hk
+  simp only [edApply] at this
+  rw [this]
+
+theorem changes_overwrite (pre post : Patch) (o1 o2 : Op) (hk : o1.key = o2.key) :
+    edChanges (edApply [] (pre ++ o1 :: o2 :: post)) = edChanges (edApply [] (pre ++ o2 :: post)) := by
+  simp only [edApply, List.foldl_append, List.foldl_cons]
+  have := edApplyOp_overwrite (top_layer_sorted pre) o1 o2 hk
+  simp only [edApply] at this
+  rw [this]
+
+/-- T3 on the manager: committing the change set of a view opened on the frontier installs exactly what that view
+    read (then the three bookkeeping writes of `SetFrontier` on top) -/
+theorem commit_installs_view {s s' : Ldb} {h : List Ver} (hr : Reach s h) {top : Raw} (hs : Sorted top)
+    (id : Id) (ha : s.add s.frontierId id (edChanges top) = some s') (k : Bytes) :
+    abs s'.frontier k =
+      applyP (fun x => edDecode (match rget top x with | some v => some v | none => rget s.frontier x))
+        (frontierOps id) k := by
+  have he := hr.inv.inv0.add_eq id (edChanges top) ha
+  subst he
+  simp only []
+  rw [abs_edApply, applyP_append]
+  congr 2
+  funext x
+  exact changes_replay_layer hs (Root.front s.frontier) x
+
+/-- the stored redo patch (`GetPatch`) of every version on the chain is that version's patch, and replaying the
+    chain's patches oldest-first from the empty store reproduces the frontier content. (Model level only: the
+    `patches` table follows the Go code but is not exercised by the `vdb` stream.) -/
+theorem patches_replay {s : Ldb} {h : List Ver} (hr : Reach s h) :
+    (∀ v ∈ h, lookupH s.patches v.id.height = some v.patch) ∧
+    (h.reverse.map Ver.patch).foldl applyP Store.empty = abs s.frontier := by
+  refine ⟨fun v hv => hr.inv.inv0.pt.mem hv, ?_⟩
+  rw [hr.inv.inv0.hchain.replay, hr.inv.inv0.front]
+
+example : edChanges (edApply [] [Op.put [5] [1], Op.del [3], Op.put [5] [], Op.put [4] [9]]) =
+    [Op.del [3], Op.put [4] [9], Op.put [5] []] := by decide
 
 /-- non-vacuity: a concrete two-commit history; the view at the first version hides the later write and deletion -/
 example :
